@@ -59,7 +59,11 @@ def load(path, fns, consts):
                 if m:
                     blocks = {}; cur = Fn(m.group(1), [], blocks, ""); consts[m.group(1)] = cur
                 else:
-                    cur = None
+                    m2 = re.match(r"^const ([A-Z_][A-Z0-9_]*): (.+?) = \{$", line.rstrip())
+                    if m2:
+                        blocks = {}; cur = Fn("const " + m2.group(1), [], blocks, m2.group(2)); cur.ltypes["_0"] = m2.group(2); consts["named::" + m2.group(1)] = cur
+                    else:
+                        cur = None
             continue
         if cur is None: continue
         if line.startswith("}"): cur = None; continue
@@ -262,6 +266,7 @@ class Exec:
             self.by_last.setdefault(n.split("::")[-1], []).append(f)
         self.solver = z3.Solver()
         _FORCE[0] = self.force_choice
+        self.cenv = []
         self.pc = []; self.decisions = []; self.prefix = []; self.pending = []
         self.steps = 0; self.queries = 0
     def force_choice(self, ch):
@@ -353,10 +358,19 @@ class Exec:
             m = re.match(r"^(-?\d+)_(usize|isize|i64|u64|i32|u32|u8|i8)$", c)
             if m: return int(m.group(1))
             if c in ("true", "false"): return c == "true"
+            if re.match(r"^[A-Z]$", c) and self.cenv and c in self.cenv[-1]: return self.cenv[-1][c]
             if c == "()": return TupleV([])
             if c.startswith('"'): return c[1:-1]
+            mch = re.match(r"^'(\\?.|\\u\{[0-9a-fA-F]+\})'$", c)
+            if mch:
+                t = mch.group(1)
+                if t.startswith("\\u"): return chr(int(t[3:-1], 16))
+                if t.startswith("\\"): return {"n": "\n", "t": "\t", "r": "\r", "0": "\0", "\\": "\\", "'": "'"}.get(t[1], t[1])
+                return t
             if c.startswith('b"'): return Opaque("bytes")
             if "promoted[" in c: return self.promoted(c)
+            mnc = re.match(r"^(?:[\w<>':, ]+::)*([A-Z_][A-Z0-9_]*)$", c)
+            if mnc and ("named::" + mnc.group(1)) in self.consts: return self.run(self.consts["named::" + mnc.group(1)], [])
             mz = re.match(r"^ZeroSized: \{closure@([^}]*)\}$", c)
             if mz: return StructV("closure@" + mz.group(1), [])
             mz = re.match(r"^ZeroSized: ", c)
@@ -392,8 +406,16 @@ class Exec:
         if m:
             a, b = [self.operand(x, fr) for x in split_top(m.group(2))]
             op = m.group(1)
+            def bor():
+                if isinstance(a, bool) and isinstance(b, bool): return a or b
+                if isinstance(a, int) and isinstance(b, int) and not isinstance(a, bool): return a | b
+                return z3.Or(a if not isinstance(a, bool) else z3.BoolVal(a), b if not isinstance(b, bool) else z3.BoolVal(b))
+            def band():
+                if isinstance(a, bool) and isinstance(b, bool): return a and b
+                if isinstance(a, int) and isinstance(b, int) and not isinstance(a, bool): return a & b
+                return z3.And(a if not isinstance(a, bool) else z3.BoolVal(a), b if not isinstance(b, bool) else z3.BoolVal(b))
             f = {"Eq": lambda: a == b, "Ne": lambda: a != b, "Lt": lambda: a < b, "Le": lambda: a <= b,
-                 "Gt": lambda: a > b, "Ge": lambda: a >= b, "Add": lambda: a + b, "Sub": lambda: a - b, "Mul": lambda: a * b}
+                 "Gt": lambda: a > b, "Ge": lambda: a >= b, "Add": lambda: a + b, "Sub": lambda: a - b, "Mul": lambda: a * b, "BitOr": bor, "BitAnd": band}
             if op.endswith("WithOverflow"):
                 v = f[op[:3]](); lim = 2**64 - 1
                 return TupleV([v, (v < 0) if isinstance(v, int) is False else (v < 0 or v > lim)]) if not isinstance(v, int) else TupleV([v, v < 0 or v > lim])
@@ -404,6 +426,7 @@ class Exec:
         m = re.match(r"^discriminant\((.*)\)$", r)
         if m:
             v = self.getf(self.parse_place(m.group(1), fr))
+            while isinstance(v, Ref): v = self.getf(v)
             if not isinstance(v, EnumV): raise Unsupported("discriminant of %r" % (v,))
             return v.disc
         mcl = re.match(r"^\{closure@([^}]*)\} \{ (.*) \}$", r)
@@ -420,6 +443,11 @@ class Exec:
         if r.startswith("(") and r.endswith(")") and not re.match(r"^\(.*: .*\)$", r):
             return TupleV([self.operand(x, fr) for x in split_top(r[1:-1])])
         if r == "()": return TupleV([])
+        mrep = re.match(r"^\[(.*); ([A-Z]|\d+)\]$", r)
+        if mrep and self.balanced(mrep.group(1)):
+            n = int(mrep.group(2)) if mrep.group(2).isdigit() else self.cenv[-1][mrep.group(2)]
+            v0 = self.operand(mrep.group(1), fr)
+            return [deep(v0) for _ in range(n)]
         if r.startswith("[") and r.endswith("]"):
             return [self.operand(x, fr) for x in split_top(r[1:-1])]
         m = re.match(r"^([\w:<>'_, ()&\[\]]+?) \{ (.*) \}$", r)
@@ -519,7 +547,13 @@ class Exec:
             while isinstance(v, Ref): v = v.get()
             return deep(v)
         f = self.resolve(callee, args)
-        if f is not None: return self.run(f, args)
+        if f is not None:
+            mg = re.search(r"::<(\d+)>$", callee)
+            if mg:
+                self.cenv.append({"N": int(mg.group(1))})
+                try: return self.run(f, args)
+                finally: self.cenv.pop()
+            return self.run(f, args)
         return self.model(callee, args)
     def model(self, callee, a):
         c = strip_gen(callee)
